@@ -917,6 +917,23 @@ ALPHABET.update({
                      call("matvec", A=S("R_triT"), x=arr([N, 2], "f8", 36, layout="f"))],
 })
 
+# sibling classes of one parametric family of routine-manufactured operators, one holding arrays in its options (a caller-supplied start
+# vector), the other only numbers -- in both orders, with the array-less one flattened before and after the other exists
+def _u(slot, f, alg, out, v0=None):
+    c = call("unary", out=out, A=S(slot), f=f, alg=alg, akw={"max_iters": 3})
+    if v0 is not None:
+        c["args"]["v0"] = v0
+    return c
+
+
+for _alg_, _slot_ in (("Arnoldi", "D"), ("Lanczos", "P")):
+    _pl = [_u(_slot_, "sqrt", _alg_, "U_%s_pl" % _alg_), call("flatten", A=S("U_%s_pl" % _alg_))]
+    _sv = [_u(_slot_, "exp", _alg_, "U_%s_sv" % _alg_, V0), call("flatten", A=S("U_%s_sv" % _alg_))]
+    ALPHABET["flatten_unary_%s_plain" % _alg_.lower()] = [PRE[_slot_]] + _pl
+    ALPHABET["flatten_unary_%s_startvec" % _alg_.lower()] = [PRE[_slot_]] + _sv
+    ALPHABET["flatten_unary_%s_startvec_then_plain" % _alg_.lower()] = [PRE[_slot_]] + _sv + _pl
+    ALPHABET["flatten_unary_%s_plain_then_startvec" % _alg_.lower()] = [PRE[_slot_]] + _pl + _sv + [call("flatten", A=S("U_%s_pl" % _alg_))]
+
 # an ABORTED product inside a composite whose part is a user operator (the user's matmat raises), then the ordinary products of
 # the same kind of composite on plain operands: whatever the aborted product left behind (a module-level scratch buffer, a
 # half-restored attribute) must not reach them.  The results are compared across histories with the mv_/mm3_ letters' own.
